@@ -33,7 +33,7 @@
 #define SITEBITS 16
 #define NSITES (1 << SITEBITS)
 
-enum { K_SCHED = 1, K_YIELD = 2, K_DELAY = 3, K_COMMIT = 4, K_ENV = 5 };
+enum { K_SCHED = 1, K_YIELD = 2, K_DELAY = 3, K_COMMIT = 4, K_ENV = 5, K_INPUT = 6 };
 enum {
   V_RUN = 0, V_OK = 1, V_FAIL = 2, V_DEADLOCK = 3, V_HORIZON = 4,
   V_DIVERGE = 5, V_CRASH = 6, V_TIMEOUT = 7, V_ENGINE = 8
